@@ -250,6 +250,8 @@ func runEncoderProps(r *Run, prop string) {
 		c10LargePointee(r) // values above 64 KiB behind pointers, banks closed and recycled record by record
 		c01EveryBlockLength(r, true)
 		c01WideMapValues(r)
+		c01AdjacentFloats(r)
+		c03SlotReuse(r)
 	} else {
 		c02NilCollectionPointers(r)
 		// C02 speaks of every file the encoder or the file writer produces: the FileWriter used
